@@ -9,7 +9,7 @@ BIG = [(4, 4), (2, 6), (6, 2), (3, 5), (5, 3), (2, 5), (5, 2)]
 FAMILIES = {
     'C01': {'C01'}, 'C02': {'C02', 'C02L'}, 'C03': {'C03'}, 'C04': {'C04'}, 'C05': {'C05'},
     'C06': {'C06'}, 'C07': {'C07'}, 'C08': {'C08'}, 'C09': {'C09'}, 'C10': {'C10'},
-    'C16': {'C16'}, 'C18': {'C18'}, 'C20': {'C20'},
+    'C15': {'C15'}, 'C16': {'C16'}, 'C18': {'C18'}, 'C20': {'C20'},
 }
 # clause prefixes each property owns (a mismatch of another prefix in its trace is reported as foreign)
 OWN = {p: (p + '.',) for p in FAMILIES}
